@@ -8,17 +8,32 @@ use vhc::textgen::{Case, Corpus, FAMILIES, gen_family, tokens};
 /// mutants that stay inside the grammar).
 pub const LOCAL: &[&str] = &["gen-prog", "gen-prog-mutant", "ident-swap", "lit-swap", "op-swap", "kw-swap", "item-splice"];
 
-/// Local families that are NOT part of the default set (narrowing, DESIGN.md 4.3): on the pinned tree they
-/// keep reaching new panic sites deep in the semantic phases (generic traits, associated types, impl matching,
-/// bytecode generation of rejected-looking-but-accepted programs) without the key space saturating; see
-/// vlib/props/c06.py NARROWING. They stay available through `families=all` (or by name) for exploration.
-pub const WIDE_ONLY: &[&str] = &["gen-prog", "gen-prog-mutant", "item-splice"];
+/// The default set (narrowing, DESIGN.md 4.3; the full reasoning with the measured numbers is in
+/// vlib/props/c06.py, section NARROWING): repository files as they are and their *valid* variants (line endings,
+/// BOM, multi-byte characters), plus the families that produce garbage or abruptly ending text (token soup,
+/// random UTF-8, truncation, unbalanced nesting). On the pinned tree these reach a bounded set of panic sites.
+pub const DEFAULT: &[&str] = &["corpus", "corpus-crlf", "line-endings", "multibyte", "soup", "utf8-random", "truncate", "nest"];
+/// Token-level mutants of repository files ("almost valid" programs). They keep reaching new panic sites deep in
+/// the semantic phases of the pinned tree (about one new site per 2 000 - 3 000 inputs even after the 19 proposed
+/// repairs), so they are exploration families: `families=mutants` or `families=all`.
+pub const MUTANTS: &[&str] = &[
+    "tok-delete", "tok-dup", "tok-swap", "tok-replace", "tok-insert", "chunk-delete", "splice", "delim-flip", "ident-swap", "lit-swap", "op-swap",
+    "kw-swap",
+];
+/// Grammar-directed random programs, their mutants and concatenated files: same remark, higher yield still.
+pub const WIDE: &[&str] = &["gen-prog", "gen-prog-mutant", "item-splice"];
 
 pub fn select_families(spec: &str) -> Vec<String> {
-    let all: Vec<String> = FAMILIES.iter().chain(LOCAL.iter()).map(|s| s.to_string()).collect();
+    let own = |v: &[&str]| v.iter().map(|s| s.to_string()).collect::<Vec<String>>();
+    let all: Vec<String> = DEFAULT.iter().chain(MUTANTS.iter()).chain(WIDE.iter()).map(|s| s.to_string()).collect();
+    for f in FAMILIES.iter().chain(LOCAL.iter()) {
+        assert!(all.iter().any(|a| a == f), "family {} not classified", f);
+    }
     match spec {
         "all" => all,
-        "default" => all.into_iter().filter(|f| !WIDE_ONLY.contains(&f.as_str())).collect(),
+        "default" => own(DEFAULT),
+        "mutants" => own(MUTANTS),
+        "wide" => own(WIDE),
         s => {
             let v: Vec<String> = s.split(',').filter(|x| !x.is_empty()).map(|x| x.to_string()).collect();
             for f in &v {
@@ -60,7 +75,17 @@ pub fn gen_case(b: &Bases, fams: &[String], seed: u64, idx: u64) -> (Case, Strin
     let mut rng = Rng::new(seed, 0x7e47, idx);
     let fam = fams[(idx as usize) % fams.len()].as_str();
     let c = if fam == "corpus" { &b.full } else { &b.mutation };
-    let case = if LOCAL.contains(&fam) { gen_local(c, &mut rng, fam) } else { gen_family(c, &mut rng, fam, idx) };
+    let case = if fam == "corpus" {
+        // dense walk over all repository files, starting at a seed-dependent file, so that different seeds
+        // cover different files and count >= families x files covers every file
+        let k = (idx as usize) / fams.len();
+        let i = ((seed as usize).wrapping_mul(7919).wrapping_add(k)) % c.files.len().max(1);
+        Case { family: fam.to_string(), text: c.read(i).unwrap_or_default(), base: Some(i) }
+    } else if LOCAL.contains(&fam) {
+        gen_local(c, &mut rng, fam)
+    } else {
+        gen_family(c, &mut rng, fam, idx)
+    };
     let base = case.base.and_then(|i| c.files.get(i)).map(|p| p.to_string_lossy().to_string()).unwrap_or_default();
     (case, base)
 }
